@@ -713,6 +713,79 @@ func genRTS(g *lp.Gen) {
 	}
 }
 
+// genHnd: size limits under the handler configurations (message handler, data-frame handler only, both): single-frame
+// messages of limit-1, limit, limit+1, 2*limit, 5*limit+3 bytes and pings, fed whole or in pieces.
+func genHnd(g *lp.Gen) {
+	h := g.Pick("f", "f", "mf", "m")
+	role := g.Pick("server", "client")
+	L := g.PickInt(10, 125, 126, 1000, 4096, 65535, 65536)
+	g.P("C hnd handlers=%s role=%s limit=%d", h, role, L)
+	var s stream
+	n := 1 + g.Intn(4)
+	for i := 0; i < n; i++ {
+		if g.Chance(1, 5) {
+			s.frame(g, fspec{fin: true, op: 9, masked: role == "server", payload: randBytes(g, g.PickInt(0, 5, 125))})
+		}
+		ln := g.PickInt(0, 1, L-1, L-1, L, L, L+1, L+1, 2*L, 5*L+3)
+		if i < n-1 && g.Chance(2, 3) && ln > L {
+			ln = g.PickInt(1, L-1, L)
+		}
+		op := g.PickInt(1, 2)
+		if g.Chance(1, 4) { // a fragmented message within the limit (2 or 3 frames, possibly a ping in between)
+			parts := 2 + g.Intn(2)
+			var body []byte
+			if op == 1 {
+				body = []byte(strings.Repeat("a", g.PickInt(parts, 7, L)))
+			} else {
+				body = randBytes(g, g.PickInt(parts, 7, L))
+			}
+			if len(body) < parts {
+				body = append(body, make([]byte, parts)...)
+			}
+			if len(body) > L {
+				body = body[:L]
+			}
+			for j := 0; j < parts; j++ {
+				a, b := j*len(body)/parts, (j+1)*len(body)/parts
+				fop := 0
+				if j == 0 {
+					fop = op
+				}
+				s.frame(g, fspec{fin: j == parts-1, op: fop, masked: role == "server", payload: body[a:b]})
+				if j < parts-1 && g.Chance(1, 4) {
+					s.frame(g, fspec{fin: true, op: 9, masked: role == "server", payload: randBytes(g, 3)})
+				}
+			}
+			continue
+		}
+		if ln > 200 || ln == 0 {
+			s.frame(g, fspec{fin: true, op: 2, masked: role == "server", patN: ln, patP: g.Intn(256)}) // symbolic payloads are not text
+		} else if op == 1 {
+			s.frame(g, fspec{fin: true, op: op, masked: role == "server", payload: utf8Text(g, ln)})
+		} else {
+			s.frame(g, fspec{fin: true, op: op, masked: role == "server", payload: randBytes(g, ln)})
+		}
+	}
+	total := s.size()
+	style := g.Pick("whole", "700", "rand", "small")
+	for off := 0; off < total; {
+		k := total - off
+		switch style {
+		case "700":
+			k = 700
+		case "rand":
+			k = 1 + g.Intn(3000)
+		case "small":
+			k = g.PickInt(1, 2, 3, 7, 14, 15, 100, 1000)
+		}
+		if k > total-off {
+			k = total - off
+		}
+		g.P("F %s", s.spec(off, k))
+		off += k
+	}
+}
+
 func genRT(g *lp.Gen) {
 	comp := g.Chance(1, 2)
 	level := g.PickInt(-2, -1, 0, 1, 2, 3, 4, 5, 6, 7, 8, 9)
@@ -1056,8 +1129,10 @@ func gen(g *lp.Gen) {
 			genRT(g)
 		case x < 94:
 			genRTQ(g)
-		case x < 97:
+		case x < 96:
 			genRTS(g)
+		case x < 98:
+			genHnd(g)
 		default:
 			genMask(g, false)
 		}
